@@ -248,7 +248,7 @@ def resolve(case, pat):
 
 
 def gen_case(rng, maxlen):
-    depth = rng.choice([0, 0, 1, 1, 1, 2])
+    depth = rng.choice([0, 0, 1, 1, 1, 2, 2, 3])      # up to four template levels; aliasing of sub-circuit objects at every level
     opnames = ["op"] + rng.sample(["oq", "os"], rng.randint(0, 2))
     if rng.random() < 0.3:
         # a SECOND OperatorTemplate object of an existing name with other default values (possible since fix D90: the
@@ -304,7 +304,7 @@ def gen_case(rng, maxlen):
         """a circuit whose children are circuits of hierarchy depth level-1 (objects may be shared: D27 class)"""
         kids = []
         pool = []
-        for k in ["c1", "c2", "c3"][:rng.randint(2, 3)]:
+        for k in ["c1", "c2", "c3"][:rng.randint(2, 3) if depth < 3 else (2 if level == 1 else rng.randint(1, 2))]:
             if pool and rng.random() < 0.15:
                 kids.append([k, rng.choice(pool)])
             elif allpool.get(level - 1) and rng.random() < 0.25:
